@@ -306,12 +306,16 @@ def replay_calls(states, extra):
 
 
 def replay_idents(states, extra):
+    """identity instances; the four constants travel in the same dump and are judged like calls"""
     from engine import repo
     repo.activate()
     n, keys, bad, sample = 0, set(), [], None
     worst = {}
+    consts = []
     for st in states:
         c = st['c']
+        if c['kind'] == 'const':
+            consts.append(st)
         if c['kind'] != 'ident':
             continue
         n += 1
@@ -335,7 +339,9 @@ def replay_idents(states, extra):
                             'class': 'identity:%s' % c['id']})
             else:
                 bad.append(None)
-    return {'n': n, 'keys': sorted(keys), 'bad': bad, 'sample': sample, 'worst': worst}
+    rc = replay_calls(consts, extra)
+    return {'n': n + rc['n'], 'keys': sorted(keys), 'bad': bad + rc['bad'], 'sample': sample, 'worst': worst,
+            'const_keys': rc['keys']}
 
 
 def read_templates(states, extra):
@@ -646,8 +652,6 @@ def run(ctx):
         ctx.tlc(SPEC, 'arrays/MC_BuiltinFuncs_%s_%s.cfg' % (part, ctx.tier), dump=d, timeout=3000)
         fn = 'replay_idents' if part == 'ident' else 'replay_calls'
         res = dump.parallel(d + '.dump', 'engine.adapters.c15', fn)
-        if part == 'ident':          # the constants travel in the same dump
-            res += dump.parallel(d + '.dump', 'engine.adapters.c15', 'replay_calls_const')
         os.remove(d + '.dump')
         for r in res:
             ctx.traces_validated += r['n']
@@ -655,6 +659,8 @@ def run(ctx):
             for k in r['keys']:
                 ctx.nontrivial.add(tuple(k))
                 reached.add(str(k[3]) if part != 'ident' else 'ident:%s/%s' % (k[2], k[3]))
+            for k in r.get('const_keys', []):
+                ctx.nontrivial.add(tuple(k))
             if r['sample']:
                 ctx.sample(r['sample'], limit=8)
             for b in r['bad']:
@@ -674,7 +680,7 @@ def run(ctx):
     if len(templates) < 100:
         raise Machinery('identity templates could not be read (%d)' % len(templates))
     templates.sort(key=lambda t: t['id'])
-    n_calls, n_idents = (2500, 2500) if ctx.quick else (30000, 30000)
+    n_calls, n_idents = (2500, 2500) if ctx.quick else (12000, 12000)
     cases = [{'ev': 'const', 'id': 1 + j, 'tb': tb, 'name': nm}
              for j, (tb, nm) in enumerate((tb, nm) for tb in ('formula', 'matrix') for nm in ('i', 'j', 'e', 'pi'))]
     base = len(cases) + 1
@@ -735,11 +741,6 @@ def run(ctx):
         '0-d numpy arrays are read as numbers (trans(5) returns one)',
         'rank-3 tensors as arguments are not generated',
     ]
-
-
-def replay_calls_const(states, extra):
-    """the four constants (kind 'const') of the ident dump"""
-    return replay_calls((st for st in states if st['c']['kind'] == 'const'), extra)
 
 
 def replay(ctx, rec):
